@@ -677,9 +677,12 @@ impl Gen {
                 }
                 4 => {
                     // malformed id: wrong length or a non-hex ASCII letter
-                    let bad = match self.rng.below(3) {
+                    let bad = match self.rng.below(5) {
                         0 => "zz".to_string(),
                         1 => format!("{}zz", &hex(&self.rng.bytes32())[..62]),
+                        // 64 bytes, not ASCII
+                        2 => "\u{e9}".repeat(32),
+                        3 => format!("\u{e9}{}", &hex(&self.rng.bytes32())[..62]),
                         _ => hex(&self.rng.bytes32())[..40].to_string(),
                     };
                     tags.push(vec!["e".into(), bad]);
@@ -694,6 +697,13 @@ impl Gen {
                         let kind = if param { *self.rng.pick(&self.kinds_param) } else { *self.rng.pick(&self.kinds_repl) };
                         let d = if param { self.rng.pick(&self.dvals).clone().into_bytes() } else { vec![] };
                         (AddrKey { kind, pk, d }, self.time())
+                    };
+                    // an odd target now and then: a plain replaceable kind WITH an identifier (the
+                    // implementation may take it for the address (key, kind) or ignore it - not both)
+                    let a = if self.p.prop != "C14" && is_replaceable(a.kind) && a.d.is_empty() && self.rng.chance(1, 5) {
+                        AddrKey { d: self.rng.pick(&["foo", "x", "0"]).as_bytes().to_vec(), ..a }
+                    } else {
+                        a
                     };
                     ref_times.push(t);
                     tags.push(vec!["a".into(), format!("{}:{}:{}", a.kind, hex(&a.pk), String::from_utf8(a.d).unwrap_or_default())]);
@@ -716,9 +726,12 @@ impl Gen {
                     }
                 }
                 8 => {
-                    let bad = match self.rng.below(3) {
+                    let bad = match self.rng.below(5) {
                         0 => "notanaddr".to_string(),
                         1 => format!("30000:{}", hex(&pk)), // no third part
+                        // a key of 64 bytes that are not ASCII
+                        2 => format!("10000:{}:", "\u{e9}".repeat(32)),
+                        3 => format!("30000:{}\u{e9}:x", &hex(&pk)[..62]),
                         _ => format!("30000:{}zz:x", &hex(&pk)[..62]),
                     };
                     tags.push(vec!["a".into(), bad]);
